@@ -808,6 +808,9 @@ class Container:
         else:
             raise ValueError("Invalid quantity unit.")
 
+        if round(ratio, config.internal_precision) > 1:
+            raise ValueError(f"Not enough mixture left in source container ({source_container.name}).")
+
         source_container, to = deepcopy(source_container), deepcopy(self)
         for substance, amount in source_container.contents.items():
             to_transfer = amount * ratio
